@@ -321,9 +321,10 @@ class Check:
         self.rng = random.Random(seed * 1000003 + int(pid[1:]))
         self.replay_dir = BUILD / "replays"
         self.replay_dir.mkdir(parents=True, exist_ok=True)
-        for f in self.replay_dir.glob(pid + "-*.replay"):
+        for f in self.replay_dir.glob(pid + "-*.replay"):      # replays of earlier runs; never one a concurrent run has just reported
             try:
-                f.unlink()
+                if time.time() - f.stat().st_mtime > 7200:
+                    f.unlink()
             except OSError:
                 pass
         self.histogram = {}
